@@ -11,7 +11,9 @@ spuriously or by the notification of a queue that was empty only for a moment, o
 * `wait_empty_sound`: ARES_SUCCESS is returned only when the last evaluation of the loop condition saw an empty queue;
 * `wake_rechecks`: a waiter that is woken while requests are outstanding goes round again (seed C11-5 broke this);
 * `timeout_has_cause`: ARES_ETIMEOUT is returned only after a wait timed out or the remaining time reached 0;
-* `untimed_only_success`: without a timeout the only result is ARES_SUCCESS.
+* `untimed_only_success`: without a timeout the only result is ARES_SUCCESS;
+* `empty_seen_returns` / `timeout_is_reported`: completeness of the timed loop - after any number of wake-ups the first empty
+  queue seen gives ARES_SUCCESS, and the first expired wait with requests outstanding gives ARES_ETIMEOUT.
 -/
 import CaresModel.Generated.WaitEmpty
 namespace Cares.C11c
@@ -127,10 +129,43 @@ theorem untimed_only_success (obs : List Obs) (x : Option Nat) (s : Status)
   rw [h] at this
   simpa [initStatus] using this
 
+/-- "woken with requests outstanding and time left" -/
+def Woken (p : Obs) : Prop := p.len ≠ 0 ∧ p.tmsZero = false ∧ p.waitRes = .ok
+
+/-- completeness: however often the waiter was woken in between, the first evaluation of the loop condition that sees an
+    empty queue ends the call with ARES_SUCCESS (the waiter is not lost, and no stale status survives the wake-ups) -/
+theorem empty_seen_returns (pre : List Obs) (o : Obs) (post : List Obs)
+    (hpre : ∀ p ∈ pre, Woken p) (h0 : o.len = 0) :
+    run true .ok (pre ++ o :: post) = (.ok, some 0) := by
+  induction pre with
+  | nil => simp [run, h0]
+  | cons p ps ih =>
+    have hp := hpre p (by simp)
+    rw [List.cons_append, wake_rechecks p _ hp.1 hp.2.1 hp.2.2]
+    exact ih (fun q hq => hpre q (by simp [hq]))
+
+/-- the timeout is honoured: the first iteration in which the remaining time is 0 or the wait timed out, with requests
+    still outstanding, ends the call with ARES_ETIMEOUT — the waiter does not go round again -/
+theorem timeout_is_reported (pre : List Obs) (o : Obs) (post : List Obs)
+    (hpre : ∀ p ∈ pre, Woken p) (h0 : o.len ≠ 0) (hc : o.tmsZero = true ∨ o.waitRes = .timeout) :
+    run true .ok (pre ++ o :: post) = (.timeout, some o.len) := by
+  induction pre with
+  | nil =>
+    have : (o.len == 0) = false := by simp [h0]
+    rcases hc with hc | hc
+    · simp [run, this, timedIter, hc]
+    · cases hz : o.tmsZero <;> simp [run, this, timedIter, hc, hz]
+  | cons p ps ih =>
+    have hp := hpre p (by simp)
+    rw [List.cons_append, wake_rechecks p _ hp.1 hp.2.1 hp.2.2]
+    exact ih (fun q hq => hpre q (by simp [hq]))
+
 /-! non-vacuity: the notified-then-refilled history of seed C11-5 -/
 example : run true .ok [⟨1, false, .ok⟩, ⟨1, false, .timeout⟩] = (.timeout, some 1) := by decide
 example : run true .ok [⟨1, false, .ok⟩, ⟨0, false, .ok⟩] = (.ok, some 0) := by decide
 example : run true .ok [⟨2, true, .ok⟩] = (.timeout, some 2) := by decide
 example : run false .ok [⟨2, false, .ok⟩, ⟨1, false, .ok⟩, ⟨0, false, .ok⟩] = (.ok, some 0) := by decide
+example : Woken ⟨3, false, .ok⟩ := by simp [Woken]
+example : run true .ok ([⟨3, false, .ok⟩, ⟨2, false, .ok⟩] ++ ⟨1, false, .timeout⟩ :: []) = (.timeout, some 1) := by decide
 
 end Cares.C11c
